@@ -10,7 +10,7 @@ static long wline(word w) { return vh_def_words(&w, 1); }
 
 /* ------------------------------------------------------------------ move */
 /* deterministic per call (the purity comparison of C10 re-runs cases in other environments) */
-static word rnd_state;
+static __thread word rnd_state;
 static word rnd_cb(void *data) { (void)data; rnd_state = rnd_state * 6364136223846793005ULL + 1442695040888963407ULL; return rnd_state | ((word)1 << 63) | 1; }
 
 enum { M_ADD, M_ADD_CA, M_ADD_CB, M_ADD_CAB, M__ADD, M_TRANSPOSE, M_TRANSPOSE2, M_COPY, M_COPY_BIG, M_COPYROW, M_SUBMATRIX, M_CONCAT, M_STACK, M_EXTRACT_U, M_EXTRACT_L, M_SET_UI, M_RANDOMIZE, M_NOPS };
